@@ -117,11 +117,14 @@ CXX_CLS = ['hash', 'hasha', 'xof', 'xofa', 'xof32', 'xofa64']
 def cxx_histories():
     H = []
     for cls in CXX_CLS:
-        for hist in ('absorb', 'aligned', 'squeezed', 'copy'):
+        for hist in ('absorb', 'aligned', 'squeezed', 'copy', 'assigned', 'reset'):
             def f(g, w, cls=cls, hist=hist):
                 L = ['cxh.new cls=%s obj=1 how=default' % cls, 'cxh.absorb obj=1 in=%s form=ptr' % g.sec(8 if hist == 'aligned' else 5)]
                 if hist == 'squeezed': L.append('cxh.squeeze obj=1 n=32 form=ptr')
                 if hist == 'copy': L += ['cxh.new cls=%s obj=2 how=copy src=1' % cls, 'cxh.del obj=2 dump_raw=1 wipe=%d' % (w + 500)]
+                # an object that held other secrets and is then assigned from / reset
+                if hist == 'assigned': L += ['cxh.new cls=%s obj=2 how=default' % cls, 'cxh.absorb obj=2 in=%s form=ptr' % g.sec(11), 'cxh.assign obj=2 src=1', 'cxh.del obj=2 dump_raw=1 wipe=%d' % (w + 500)]
+                if hist == 'reset': L += ['cxh.reset obj=1']
                 return L + ['cxh.del obj=1 dump_raw=1 wipe=%d' % w]
             H.append(('cxh.%s.%s' % (cls, hist), f))
     return H
